@@ -16,6 +16,8 @@ CONSTANTS
   Prompt = TRUE
   History = FALSE
   OwnBucket = FALSE
+  CheckThenTake = FALSE
+  ClosingSkipsTake = FALSE
   HistLen = @HISTLEN@
 CONSTRAINT Short
 INVARIANTS Emit UpperVQ NotStarved
